@@ -388,7 +388,11 @@ pub fn process<I: BufRead, O: Write>(
                 let mut s = remaining.split("//").next().unwrap().splitn(2, "/*");
                 // Is there a string start before that point ?
                 let s2 = s.next().unwrap();
-                if !s2.trim_start().starts_with("#include") && !asm {
+                let is_include_line = s2
+                    .trim_start()
+                    .strip_prefix('#')
+                    .map_or(false, |r| r.trim_start().starts_with("include"));
+                if !is_include_line && !asm {
                     if let Some((left, _)) = s2.split_once('"') {
                         // We have a string start
                         // Let's find the end of the string
@@ -468,6 +472,16 @@ pub fn process<I: BufRead, O: Write>(
                 "Line: {}, Uncommented: {:?}, Remaining: {:?}, insert it: {:?}",
                 line, uncommented_buf, remaining, insert_it
             );
+        }
+        // '#' may be followed by blanks before the directive name ("#  define", "# else")
+        if insert_it {
+            let t = uncommented_buf.trim_start();
+            if let Some(rest) = t.strip_prefix('#') {
+                let name = rest.trim_start();
+                if name.len() != rest.len() {
+                    uncommented_buf = format!("#{}", name);
+                }
+            }
         }
         if insert_it {
             let substr = uncommented_buf.trim();
@@ -634,9 +648,13 @@ pub fn process<I: BufRead, O: Write>(
                 let new_line = context.replace_all(&uncommented_buf);
                 let substr = new_line.trim();
                 if substr.starts_with('#') {
-                    let mut parts = substr.split("//").next().unwrap().splitn(2, [' ', '\t']);
-                    let name = parts.next().unwrap();
-                    let maybe_expr = parts.next().map(|s| s.trim()).and_then(|s| {
+                    // The directive name is '#' and the letters that follow it: "#if!FOO", "#if(A)"
+                    let text = substr.split("//").next().unwrap();
+                    let end = text[1..]
+                        .find(|c: char| !c.is_ascii_alphabetic())
+                        .map_or(text.len(), |i| i + 1);
+                    let name = &text[..end];
+                    let maybe_expr = Some(text[end..].trim()).and_then(|s| {
                         if s.is_empty() {
                             None
                         } else {
